@@ -7,7 +7,8 @@ from ..aiolib import AIO_TYPES
 EXPLANATION = ("C03: ownership typestate for nni_msg* over every function that touches a message (no double release, "
                "no leak on any exit, no use after hand-off, failure leaves the message on the user aio, completion "
                "callbacks dispose of the message they carry), orphan draining in fini slots, guard consistency of "
-               "conditional references, sized-free agreement.")
+               "conditional references, sized-free agreement."
+               " Also: a size passed to nni_free from a companion field is the size that was allocated (O4); protocol state that is written under the socket lock at one site is written under it everywhere (O7); every send slot takes the message off the aio before it completes the send successfully (O8).")
 
 SEND_SLOTS = ("nni_proto_sock_ops.sock_send", "nni_proto_ctx_ops.ctx_send", "nni_sp_pipe_ops.p_send")
 
